@@ -398,6 +398,21 @@ func runC13(e *sim.Env) {
 				// StateElement is filled in), which is counted, not judged (12.7)
 				if ok && bytes.Equal(gen.Enc(in.Parent.StateElement), gen.Enc(el.StateElement)) && !bytes.Equal(gen.Enc(in.Parent), gen.Enc(el)) {
 					e.Probe("rebase_siafund_claimstart_not_filled")
+					// does the child validate at the target, and is ClaimStart the only reason if not?
+					if len(out[i].SiafundInputs) == 1 && len(out[i].SiacoinInputs) == 0 {
+						if verr := consensus.ValidateV2Transaction(consensus.NewMidState(to.L.State), out[i]); verr != nil {
+							fixed := out[i].DeepCopy()
+							fixed.SiafundInputs[j].Parent.ClaimStart = el.ClaimStart
+							if consensus.ValidateV2Transaction(consensus.NewMidState(to.L.State), fixed) == nil {
+								e.Probe("known_claimstart")
+								e.Violationf("C13.valid-at-target", "ephemeral-siafund-claimstart", "rebased transaction %d (%v) spends the siafund output %v of a parent confirmed on the way; its leaf index and proof were filled in but ClaimStart stayed %v (ledger at %s: %v), so it is invalid at the target (%v) and valid once ClaimStart is filled in", i, out[i].ID(), in.Parent.ID, in.Parent.ClaimStart, to.Describe(), el.ClaimStart, verr)
+							} else {
+								e.Probe("rebase_siafund_claimstart_child_invalid_for_another_reason")
+							}
+						} else {
+							e.Probe("rebase_siafund_claimstart_child_valid_at_target")
+						}
+					}
 				}
 				if ok && !bytes.Equal(gen.Enc(in.Parent.StateElement), gen.Enc(el.StateElement)) {
 					e.Violationf("C13.proofs-at-target", "siafund", "rebased transaction %d siafund input %d (%v): leaf %d, %d proof hashes; the ledger at %s has leaf %d, %d hashes", i, j, in.Parent.ID, in.Parent.StateElement.LeafIndex, len(in.Parent.StateElement.MerkleProof), to.Describe(), el.StateElement.LeafIndex, len(el.StateElement.MerkleProof))
